@@ -1,10 +1,13 @@
 import Xsm.Model.Json
 import Xsm.Model.Actors
+import Xsm.Model.ActorsDone
 /-!
 Line-protocol driver for the actor-system model (property C15); imports only `Xsm.Model`.
 
-    CASE {"flavor":"sync"|"async","eager":bool,"invoke":{kind:src|null},"cmds":{name:[action,...]}}
-    OP   ["cmd",actorId,name] | ["adv",ms] | ["stop",actorId]
+    CASE {"flavor":"sync"|"async","eager":bool,"invoke":{kind:src|null},"cmds":{name:[action,...]},"f71fixed":bool}
+    OP   ["cmd",actorId,name] | ["adv",ms] | ["stop",actorId] | ["fin",actorId] | ["fail",actorId]
+         ("fin"/"fail": the actor's machine ends by itself, `Xsm/Model/ActorsDone.lean`; "f71fixed": does the async
+          managing task of an invoked machine stop a child that finished by itself? - the harness derives it from the ledger)
          -> {"tree":[[depth,id,status,[received]]],"reg":[[systemId,id,status]],"det":[[id,status,[received]]],
              "warn":[..],"afterstop":[[id,event]],"oos":bool}
     action = ["spawnChild",key,eid|null,sysId|null] | ["spawn",key,eid|null,sysId|null,blocking]
@@ -51,36 +54,41 @@ def parseAction : J → Option Action
   | .arr [.str "stopChild", .str tgt] => some (.stopChild tgt)
   | _ => none
 
-def parseOp : J → Option Op
-  | .arr [.str "cmd", .str aid, .str name] => some (.cmd aid name)
-  | .arr [.str "adv", n] => some (.adv (natOf n))
-  | .arr [.str "stop", .str aid] => some (.stop aid)
+def parseOp : J → Option OpD
+  | .arr [.str "cmd", .str aid, .str name] => some (.base (.cmd aid name))
+  | .arr [.str "adv", n] => some (.base (.adv (natOf n)))
+  | .arr [.str "stop", .str aid] => some (.base (.stop aid))
+  | .arr [.str "fin", .str aid] => some (.fin aid false)
+  | .arr [.str "fail", .str aid] => some (.fin aid true)
   | _ => none
 
-def stStr : Status → String
+def stStr : StatusD → String
   | .uninit => "uninit"
   | .running => "running"
+  | .done => "done"
+  | .error => "error"
   | .stopped => "stopped"
 
-def render (s : Sys) : String :=
+def render (sd : SysD) : String :=
+  let s := sd.base
   let tr := tree s
   let reach := tr.map (·.2)
   let row (d : Option Nat) (u : Nat) : String :=
     let a := s.get u
-    jarr ((match d with | some k => [toString k] | none => []) ++ [jstr a.id, jstr (stStr a.status), jarr (a.received.map jstr)])
+    jarr ((match d with | some k => [toString k] | none => []) ++ [jstr a.id, jstr (stStr (sd.status u)), jarr (a.received.map jstr)])
   let treeJ := jarr (tr.map (fun du => row (some du.1) du.2))
-  let regJ := jarr (s.registry.map (fun kv => jarr [jstr kv.1, jstr (s.get kv.2).id, jstr (stStr (s.get kv.2).status)]))
+  let regJ := jarr (s.registry.map (fun kv => jarr [jstr kv.1, jstr (s.get kv.2).id, jstr (stStr (sd.status kv.2))]))
   let detJ := jarr (((List.range s.actors.length).filter (fun u => !reach.contains u && (s.get u).status != .uninit)).map (row none))
   -- "afterstop" (events processed after the stop notification) is empty in every state of the model:
   -- an actor whose status is `stopped` never processes anything (`XSM.C15.nothing_delivered_after_stop`, `stopped_actor_is_frozen_inside_a_macrostep`)
   let late : List String := []
   "{\"tree\":" ++ treeJ ++ ",\"reg\":" ++ regJ ++ ",\"det\":" ++ detJ ++ ",\"warn\":" ++ jarr (s.warns.map jstr)
     ++ ",\"afterstop\":" ++ jarr late ++ ",\"oos\":" ++ (if s.oos then "true" else "false")
-    ++ ",\"inv\":" ++ (if invB s then "true" else "false") ++ "}"
+    ++ ",\"inv\":" ++ (if invD sd then "true" else "false") ++ "}"
 
 structure DS where
   cmds : List (String × List Action) := []
-  s : Sys := {}
+  s : SysD := {}
 
 def handleLine (d : DS) (line : String) : DS × String :=
   if line.startsWith "CASE " then
@@ -95,7 +103,8 @@ def handleLine (d : DS) (line : String) : DS × String :=
       let cmds := match j.get? "cmds" with
         | some (.obj kvs) => kvs.map (fun kv => (kv.1, match kv.2 with | .arr xs => xs.filterMap parseAction | _ => []))
         | _ => []
-      let s := init fl eager inv
+      let fixed := match j.get? "f71fixed" with | some (.bool b) => b | _ => false
+      let s := initD fl eager inv fixed
       ({ cmds := cmds, s := s }, render s)
   else if line.startsWith "OP " then
     match parseJson (dropPfx line 3) with
@@ -104,7 +113,7 @@ def handleLine (d : DS) (line : String) : DS × String :=
       match parseOp j with
       | none => (d, "{\"err\":\"bad op\"}")
       | some op =>
-        let s' := step d.cmds d.s op
+        let s' := stepD d.cmds d.s op
         ({ d with s := s' }, render s')
   else (d, "{\"err\":\"unknown command\"}")
 
